@@ -485,6 +485,7 @@ def check_C13(ctx):
         return validate_star(ctx, "Trace_Code", "Trace_Code.cfg", ctx.replay, parts=1)
     model_must_hold(ctx, "MC_Field", "MC_Field_4.cfg")
     code_family(ctx, "c13", what="encode round / linear relation")
+    history_component(ctx, roles=("enc",))
 
 
 def check_C04(ctx):
